@@ -826,7 +826,8 @@ def c17(F: Facts, w):
                 out.append(V('C17', 'line_wrong_parent', (bus, name), got=d.get('event_parent_id'), want=want_par))
             # path at the time of the write = buses that had accepted the event by then
             # (the line is serialised right before the attempt's mkdir, i.e. before any simulated I/O latency)
-            ser = max([r[0] for r in io_recs if r[3] == 'mkdir' and r[0] < wr[0]] or [wr[0]])
+            ser = max([r[0] for r in F.recs if r[2] == 'wal_begin' and r[3] == bus and r[4] == name and r[0] < wr[0]]
+                      or [r[0] for r in io_recs if r[3] == 'mkdir' and r[0] < wr[0]] or [wr[0]])
             pth = []
             for seq, t, actor, b2, e2, oc, hl in F.disps:
                 if e2 == name and oc == 'ok' and seq < ser and b2 not in pth:
